@@ -37,7 +37,10 @@ void record(TraceRecorder *rec, int slot)
   Sink s;
   s.global = p->global_api != 0;
   char tname[16];
-  snprintf(tname, sizeof tname, "thr-%d", slot);
+  if (p->same_names)
+    snprintf(tname, sizeof tname, "worker");
+  else
+    snprintf(tname, sizeof tname, "thr-%d", slot);
   if (s.global) {
     if (p->named[slot])
       rkcommon::tracing::setThreadName(tname);
@@ -82,7 +85,7 @@ void record(TraceRecorder *rec, int slot)
       break;
     }
   }
-  while (depth--) {
+  while (!p->leave_open && depth--) {
     s.end();
     c20t_recorded(slot, C20_END, -1, -1, 0);
   }
